@@ -250,27 +250,40 @@ def gen_layout(rng, tname=None):
             out.append(it)
     if org + total > 0xFFF0:
         org = 0x100
-    return {"target": t.name, "org": org, "items": [list(x) if not isinstance(x, list) else x for x in out], "nlab": nlab}
+    lay = {"target": t.name, "org": org, "items": [list(x) if not isinstance(x, list) else x for x in out], "nlab": nlab}
+    if rng.chance(0.3):
+        # some labels live in a SECTION of their own and are reached from outside through PUBLIC (plain name) or GLOBAL
+        # (qualified alias section_label): symbol-table entries that exist beside the label proper
+        lay["export"] = {str(i): rng.choice(["public", "global"]) for i in range(nlab) if rng.chance(0.4)}
+    return lay
 
 
 def render(lay):
     t = TARGETS[lay["target"]]
     L = ["\tcpu %s" % t.cpu, "\torg %d" % lay["org"]]
+    exp = lay.get("export", {})
+
+    def nm(i):
+        return "sx%d_l%d" % (i, i) if exp.get(str(i)) == "global" else "l%d" % i
     for it in lay["items"]:
         k = it[0]
         if k == "label":
+            if str(it[1]) in exp:
+                L.append("\tsection sx%d\n\t%s l%d" % (it[1], exp[str(it[1])], it[1]))
             if t.align == 2:
                 # word data: after odd-length byte data the assembler pads and must move the label (label fix-up)
                 L.append("l%d:\t%s %d,%d" % (it[1], t.word, (MARK[0] << 8) | MARK[1], (it[1] << 8) | (255 - it[1])))
             else:
                 L.append("l%d:\t%s %d,%d,%d,%d" % (it[1], t.byte, MARK[0], MARK[1], it[1], 255 - it[1]))
+            if str(it[1]) in exp:
+                L.append("\tendsection sx%d" % it[1])
         elif k == "fill":
             L.append("\t%s %d" % (t.res, it[1]))
         elif k == "ref":
             sfx = getattr(t, "suffix", {}).get(it[1], "")
-            L.append("\t%s %sl%d%s" % (getattr(t, "alias", {}).get(it[1], it[1]), getattr(t, "prefix", {}).get(it[1], ""), it[2], sfx))
+            L.append("\t%s %s%s%s" % (getattr(t, "alias", {}).get(it[1], it[1]), getattr(t, "prefix", {}).get(it[1], ""), nm(it[2]), sfx))
         elif k == "dataref":
-            L.append("\t%s l%d" % ("dc.l" if it[2] == 4 else t.word, it[1]))
+            L.append("\t%s %s" % ("dc.l" if it[2] == 4 else t.word, nm(it[1])))
         elif k == "selfref":
             if it[2]:
                 L.append("s%d:\t%s s%d" % (it[1], t.word, it[1]))
@@ -286,7 +299,7 @@ def render(lay):
             L.append("\tassume %s:%d" % (getattr(t, "assume", "dpr"), it[1]))
     # reference table of every label
     for i in range(lay["nlab"]):
-        L.append("\t%s l%d" % (t.word, i))
+        L.append("\t%s %s" % (t.word, nm(i)))
     return "\n".join(L) + "\n"
 
 
